@@ -189,6 +189,35 @@ impl Pools {
     }
 }
 
+/// Words whose treatment depends on context-sensitive or multi-character case
+/// rules in *tailored / string-level* APIs (final sigma, dotted I, sharp s,
+/// ligatures, titlecase digraphs, n-apostrophe): a per-character mapping must
+/// not care, a string-level shortcut does.
+pub const SPECIAL_WORDS: [&str; 22] = [
+    "\u{391}\u{3A3}",
+    "\u{39F}\u{394}\u{3A5}\u{3A3}\u{3A3}\u{395}\u{3A5}\u{3A3}",
+    "\u{3A3}",
+    "\u{3A3}\u{391}\u{3A3}",
+    "a\u{3A3}",
+    "\u{391}\u{3A3}\u{FF01}",
+    "\u{FF21}\u{3A3}",
+    "\u{391}\u{3A3} \u{392}",
+    "\u{130}stanbul",
+    "I\u{307}",
+    "\u{1C5}\u{1C8}",
+    "\u{1F88}\u{1FBC}",
+    "STRASSE\u{1E9E}",
+    "\u{149}A",
+    "\u{FB01}\u{FB03}X",
+    "\u{3A3}\u{301}\u{3A3}",
+    "\u{10400}\u{10428}",
+    "\u{2160}\u{2170}",
+    "\u{24B6}\u{24D0}",
+    "\u{212A}\u{212B}\u{2126}",
+    "\u{1E9E}",
+    "\u{13A0}\u{13F0}",
+];
+
 /// Weighted character source kinds for random strings
 #[derive(Clone, Copy, Debug)]
 pub enum Kind {
@@ -223,6 +252,7 @@ pub enum Kind {
     AnyScalar,
     CaseNfc,
     Cherokee,
+    SpecialWord,
 }
 
 pub fn push_kind(p: &Pools, rng: &mut Rng, k: Kind, out: &mut String) {
@@ -289,6 +319,7 @@ pub fn push_kind(p: &Pools, rng: &mut Rng, k: Kind, out: &mut String) {
         },
         Kind::CaseNfc => out.push_str(rng.pick(&p.case_nfc_interact[..]).as_str()),
         Kind::Cherokee => out.push(*rng.pick(&p.cherokee)),
+        Kind::SpecialWord => out.push_str(SPECIAL_WORDS[rng.below(SPECIAL_WORDS.len())]),
     }
 }
 
@@ -321,6 +352,7 @@ pub const MIX_USERNAME: Mix = &[
     (Kind::AsciiSpace, 1),
     (Kind::FourByte, 1),
     (Kind::Cherokee, 1),
+    (Kind::SpecialWord, 2),
 ];
 
 /// freeform content: spaces, symbols, compat characters, letters
@@ -352,6 +384,7 @@ pub const MIX_FREEFORM: Mix = &[
     (Kind::Unassigned, 1),
     (Kind::Control, 1),
     (Kind::CaseNfc, 2),
+    (Kind::SpecialWord, 2),
 ];
 
 /// hostile: anything
@@ -382,6 +415,7 @@ pub const MIX_HOSTILE: Mix = &[
     (Kind::FreePval, 4),
     (Kind::CaseNfc, 2),
     (Kind::Cherokee, 1),
+    (Kind::SpecialWord, 1),
 ];
 
 pub fn pick_kind(rng: &mut Rng, mix: Mix) -> Kind {
